@@ -65,6 +65,15 @@ def kinds_sig(pterm):
     return "+".join(ks) or "empty"
 
 
+def _spec_ok(p):
+    """under `dtype` the specification language reads str arguments as type names: such terms have no spec spelling"""
+    for k in ("key", "index", "value", "condition", "map_condition", "list_condition"):
+        c = p.get(k)
+        if c is not None and "c" in c and not build.dtype_args_are_types(c):
+            return False
+    return True
+
+
 def run(case, ctx):
     import valida
     import valida.datapath as DP
@@ -96,6 +105,17 @@ def run(case, ctx):
         ("bound(raw)", lambda: DP.DataPath(*parts, source_data=doc).get_data()),
         ("bound(Data)", lambda: DP.DataPath(*parts, source_data=D).get_data()),
     ]
+    # the same path written as part specifications (a random legal spelling of each part)
+    import random, zlib
+    sp = build.Spelling(random.Random(zlib.crc32(repr(pterm).encode())))
+    try:
+        specs = [build.part_spec(q, sp) for q in pterm["parts"]] if all(_spec_ok(q) for q in pterm["parts"]) else None
+    except build.Inexpressible:
+        specs = None
+    if specs is not None and pterm["parts"]:
+        entries.append(("from_part_specs", lambda: DP.DataPath.from_part_specs(*M.deep_copy(specs)).get_data(doc)))
+        for f in sp.features:
+            ctx.count("spelling:" + f)
     cexp = canon(exp)
     results = []
     for name, fn in entries:
